@@ -563,6 +563,12 @@ def rule_assign_constraints(chk, prog, tier):
         # nullptr_t (C23): the constant nullptr and an object of that type convert to every pointer type and to bool
         ops.append(('nullptr', w.mkexpr('EXPRCONST', w.t('nullptr'), None, u__constant__u=0), {'k': 'nullptr'}))
         ops.append(('nullptr_t-object', w.temp(w.t('nullptr'), 'np'), {'k': 'nullptr'}))
+        # integer constant expressions that are not a single constant: 1 - 1 and (char)0 are null pointer constants (6.3.2.3p3), 2 - 1 is not
+        def kconst(v): return w.mkexpr('EXPRCONST', u['int'], None, u__constant__u=v)
+        def sub(a, b): return w.mkexpr('EXPRBINARY', u['int'], None, op=ev(prog, 'TSUB'), u__binary__l=kconst(a), u__binary__r=kconst(b))
+        ops.append(('1 - 1', sub(1, 1), {'k': 'arith', 't': 'int', 'w': None, 'null': True}))
+        ops.append(('2 - 1', sub(2, 1), {'k': 'arith', 't': 'int', 'w': None, 'rvalue': True}))
+        ops.append(('(char)0', w.mkexpr('EXPRCAST', u['char'], kconst(0)), {'k': 'arith', 't': 'char', 'w': None, 'null': True}))
         cur = {}; seq = {'i': 0}
         tokobj = it.gobj('tok')
         def settok(k):
@@ -577,7 +583,7 @@ def rule_assign_constraints(chk, prog, tier):
                           'fatal': lambda i2, a, e: (_ for _ in ()).throw(Terminal('fatal', a)), 'error': lambda i2, a, e: (_ for _ in ()).throw(Terminal('error', a))})
         out = {}
         for ln, le, ld in ops:
-            if ld.get('w') is not None or ld.get('null'): continue
+            if ld.get('w') is not None or ld.get('null') or ld.get('rvalue'): continue
             # the left operand must be a modifiable lvalue: give the operand expression the lvalue flag
             le.obj.f[('lvalue',)] = 1
             for rn, re_, rd in ops:
